@@ -6,6 +6,7 @@ mod fam_feat;
 mod fam_geom;
 mod fam_kf;
 mod fam_nms;
+mod fam_smetric;
 mod fam_store;
 mod fam_trk;
 mod fam_vote;
@@ -40,6 +41,7 @@ fn exec(ctx: &mut Ctx, line: &str) -> String {
         "store" => fam_store::exec_store(ctx, &mut t),
         "trk" => fam_trk::exec(ctx, &mut t),
         "kf" => fam_kf::exec(ctx, &mut t),
+        "smetric" => fam_smetric::exec(ctx, &mut t),
         "geom" => fam_geom::exec_geom(ctx, &mut t),
         _ => format!("UNKNOWN-FAMILY {fam}"),
     }
